@@ -33,6 +33,19 @@ T = {
  "C14-b": ("C14", "ObservableList::task sheds caught-up subscribers on the distributor channel closing", "list dropped without done() while a distributor clone is alive"),
  "C17-a": ("C17", "owner_task sends the commit confirmation even when no new value was received", "remote writer whose committed value cannot be received by the owner"),
  "C17-b": ("C17", "cache monitor waits for a change before checking the invalidation flag", "remote cold read served, then a write processed before the Value reaches the reader"),
+ "C12-a": ("C12", "TraitMethod::parse strips #[no_cancel] before looking for it: every method becomes cancellable", "a #[no_cancel] &mut method with awaits between the parts of its mutation whose caller goes away mid-call"),
+ "C12-b": ("C12", "RFn::try_call_int keeps the rejected request (and its own result sender) alive across result_rx.await", "RFn called where the request channel rejects with SendError::Closed(item): the call never completes"),
+ "C15-a": ("C15", "watch::send_impl leaves the forwarding loop when has_changed() reports the closed channel", "newer value sent and sender dropped while the previous value's remote send is still suspended"),
+ "C15-b": ("C15", "Serialize for watch::Receiver snapshots with borrow() and marks the version seen later, inside the connect task", "updates between serialization of the receiver and the first poll of its connect task, sender quiet afterwards"),
+ "C16-a": ("C16", "broadcast lag-notification task is raced against ready_tx.closed()", "subscriber overflowed, then the Sender dropped before the Lagged marker was queued"),
+ "C16-b": ("C16", "broadcast Sender::send releases the lock during the fan-out (subs taken out meanwhile)", "concurrent send() through another clone of the Sender on another thread"),
+ "C18-a": ("C18", "Deserialize for io::Sender restarts bytes_written at 0", "sender that wrote k > 0 bytes, was sent to another endpoint and is written to again"),
+ "C18-b": ("C18", "io::Receiver::poll_read releases the DataBuf after its first contiguous piece", "a message split at the credit boundary (more in flight than receive_buffer), reassembled as a two-piece DataBuf"),
+ "C19-a": ("C19", "mpsc::Receiver::recv returns the second final (connection lost) error instead of holding it back", "one server, three clients, two of them on connections that both fail while the third keeps calling"),
+ "C19-b": ("C19", "rtc::send_reply forwards SendingErrorKind::Dropped to the reply-error channel", "call future dropped after the reply was queued and before it was transmitted"),
+ "C20-a": ("C20", "Handle's release task removes the stored value on any change of the keep flag", "Handle::provided -> handle sent -> Provider::keep()"),
+ "C20-b": ("C20", "LazyBlob::fetch maps a port closed without data to Ok(empty)", "blob forwarded A->B->C with the A-B connection cut mid-transfer"),
+ "C20-c": ("C20", "LazyBlob::into_inner always takes the output out of the cache shared with clones", "clone a received blob, into_inner() on one clone, get() on another"),
 }
 res = {}
 rp = os.path.join(V, "mutants", "last_results.json")
